@@ -183,4 +183,20 @@ def constVals (t : Ty) (inc : Bool) (i : Ini) : Bool :=
 def imgClass (t : Ty) (inc : Bool) (i : Ini) : Bool :=
   refClass t inc i && !inc && layOK t && (noUnion t || noDesig i) && strsOK i && constVals t inc i
 
+
+/-! ## the class of `auto_image_correct` (automatic objects) -/
+
+/-- the cells of the list follow each other without overlap (no element patched inside an earlier
+string literal: known finding `auto-zero-after-patch`) -/
+def flatListB : List Init → Bool
+  | [] => true
+  | a :: l => l.all (fun b => decide (a.hi ≤ b.lo)) && flatListB l
+
+/-- `imgClass`, and the list `parseinit` built is flat -/
+def autoClass (t : Ty) (inc : Bool) (i : Ini) : Bool :=
+  imgClass t inc i &&
+    match parseinit t inc i with
+    | .ok st => flatListB (st.log.foldl applyEv [])
+    | .error _ => true
+
 end CprocVerif.InitSim
